@@ -950,72 +950,311 @@ theorem incomplete_backup_blocks_manager (c : Cfg) (s0 : St) (files : List Path)
     · cases hparse
     · omega
 
-/-! ## 10b. No history of creations and re-opened managers overwrites an existing name -/
+/-! ## 10b. Sessions: creations, re-opened managers, restores and data modifications -/
 
-/-- **An existing name is never overwritten, whatever its record.**  `A` is a name in the manager's
-dictionary (its record may be EMPTY - a backup made from an empty selection) whose directory exists.
-After any history of `create_backup` calls (any names incl. `A` itself, any file selections incl. `[]`)
-and re-opened managers, `A` is still in the dictionary and no path below `A`'s directory has changed. -/
+theorem lookup_append (m x : Listing) (B : Name) (ks : List Key) (h : lookup m B = some ks) :
+    lookup (m ++ x) B = some ks := by
+  unfold lookup at h ⊢
+  cases hf : m.find? (fun e => e.1 == B) with
+  | none => simp [hf] at h
+  | some e => simp [List.find?_append, hf] at h ⊢; exact h
+
+theorem lookup_mem (L : Listing) (B : Name) (x : List Key) (h : lookup L B = some x) : (B, x) ∈ L := by
+  unfold lookup at h
+  cases hf : L.find? (fun e => e.1 == B) with
+  | none => simp [hf] at h
+  | some e =>
+    simp [hf] at h
+    have h1 := List.mem_of_find?_eq_some hf
+    have h2 := List.find?_some hf
+    obtain ⟨a, b⟩ := e
+    simp at h2 h; subst h2; subst h; exact h1
+
+theorem lookup_of_name (L : Listing) (B : Name) (h : B ∈ L.map (·.1)) : ∃ x, lookup L B = some x := by
+  unfold lookup
+  cases hf : L.find? (fun e => e.1 == B) with
+  | none =>
+    obtain ⟨e, he, hn⟩ := List.mem_map.mp h
+    have := List.find?_eq_none.mp hf e he
+    simp [hn] at this
+  | some e => exact ⟨e.2, rfl⟩
+
+theorem name_of_lookup (L : Listing) (B : Name) (x : List Key) (h : lookup L B = some x) : B ∈ L.map (·.1) :=
+  List.mem_map.mpr ⟨(B, x), lookup_mem L B x h, rfl⟩
+
+/-- whatever `copyMap` writes are `set`s at data paths of the listed files -/
+theorem copyMap_preserves (c : Cfg) (g : List Sym → List Sym) (pick : Path → Bool) (fs : List Path) (P : St → Prop)
+    (hP : ∀ s f b, f ∈ fs → P s → P (set s (c.dpath f) (.reg b)))
+    (s s1 : St) (h : copyMap c g pick fs s = .ok s1) (h0 : P s) : P s1 := by
+  induction fs generalizing s with
+  | nil => simp [copyMap] at h; exact h ▸ h0
+  | cons f r ih =>
+    have hP' : ∀ s f b, f ∈ r → P s → P (set s (c.dpath f) (.reg b)) :=
+      fun s f b hf => hP s f b (List.mem_cons_of_mem _ hf)
+    simp only [copyMap] at h
+    split at h
+    · split at h
+      · exact ih hP' _ h (hP s f _ (List.mem_cons_self ..) h0)
+      · cases h
+    · exact ih hP' _ h h0
+
+theorem create_other_listing (c : Cfg) (a : Name) (hab : a ≠ c.name) (s0 : St) (files : List Path) (k : Nat) :
+    children (crashAfter k (createSteps c s0 files) s0) (c.backups ++ [a]) = children s0 (c.backups ++ [a]) ∧
+    walk (crashAfter k (createSteps c s0 files) s0) (c.backups ++ [a, rootName]) =
+      walk s0 (c.backups ++ [a, rootName]) := by
+  have htg := fun st (hst : st ∈ (createSteps c s0 files).take k) =>
+    createSteps_tgt c s0 files st (List.mem_of_mem_take hst)
+  constructor
+  · exact (children_walk_exec _ s0 _ (fun st hst => ⟨(htg st hst).1, fun q hq => by
+      have := other_dir_not_prefix c a hab [] q ((htg st hst).2 q hq); simpa using this⟩)).1
+  · exact (children_walk_exec _ s0 _ (fun st hst => ⟨(htg st hst).1, fun q hq => by
+      have := other_dir_not_prefix c a hab [rootName] q ((htg st hst).2 q hq); simpa using this⟩)).2
+
+/-- What a session keeps invariant about the directory of backup `B` (relative to the state `s0`):
+its entry exists, every path below it is as in `s0`, and its listings are as in `s0`. -/
+structure SInv (c : Cfg) (B : Name) (s0 s : St) : Prop where
+  dir : B ∈ children s c.backups
+  frame : ∀ p, (c.backups ++ [B]) <+: p → get s p = get s0 p
+  ch : children s (c.backups ++ [B]) = children s0 (c.backups ++ [B])
+  wk : walk s (c.backups ++ [B, rootName]) = walk s0 (c.backups ++ [B, rootName])
+
+theorem sinv_scanOne (c : Cfg) (B : Name) (s0 s : St) (h : SInv c B s0 s) :
+    scanOne s c.backups B = scanOne s0 c.backups B :=
+  scanOne_congr _ _ _ _ h.frame h.ch h.wk
+
+theorem sinv_set (c : Cfg) (B : Name) (s0 s : St) (q : Path) (f : File Sym) (h : SInv c B s0 s)
+    (hq : ¬ c.backups <+: q) : SInv c B s0 (set s q f) := by
+  have h1 : ¬ (c.backups ++ [B]) <+: q := fun hp => hq ((List.prefix_append _ _).trans hp)
+  have h2 : ¬ (c.backups ++ [B, rootName]) <+: q := fun hp => hq ((List.prefix_append _ _).trans hp)
+  refine ⟨mem_children_set _ _ _ _ _ h.dir, ?_, ?_, ?_⟩
+  · intro p hp
+    rw [get_set, ← h.frame p hp]
+    have : q ≠ p := fun e => h1 (e ▸ hp)
+    simp [this]
+  · rw [children_set _ _ _ _ h1, h.ch]
+  · rw [walk_set _ _ _ _ h2, h.wk]
+
+/-- one operation of a session keeps `B` in the dictionary and `B`'s directory intact -/
+theorem bstep_sinv (c : Cfg) (B : Name) (s0 : St) (ms : Listing × St) (o : BOp)
+    (hB : B ∈ ms.1.map (·.1)) (hs : SInv c B s0 ms.2) (hok : o.ok c ms) :
+    B ∈ (bstep c ms o).1.map (·.1) ∧ SInv c B s0 (bstep c ms o).2 := by
+  obtain ⟨m, s⟩ := ms
+  cases o with
+  | create n files =>
+    simp only [bstep]
+    split
+    · rename_i hret
+      have hn : B ≠ n := by
+        intro e; subst e
+        have := (no_overwrite { c with name := B } m s files hB).1
+        simp [this] at hret
+      have hc : (create { c with name := n } m s files).2 = createSteps { c with name := n } s files := by
+        simp only [create] at hret ⊢
+        split
+        · rename_i hx; simp [hx] at hret
+        · rfl
+      have hex : exec (createSteps { c with name := n } s files) s =
+          crashAfter (createSteps { c with name := n } s files).length (createSteps { c with name := n } s files) s := by
+        simp [crashAfter, List.take_length]
+      refine ⟨by simp only [List.map_append, List.mem_append]; exact .inl hB, ?_⟩
+      simp only [hc]
+      have hl := create_other_listing { c with name := n } B hn s files (createSteps { c with name := n } s files).length
+      have hi := (backups_independent { c with name := n } B hn s files
+        (createSteps { c with name := n } s files).length).1
+      rw [← hex] at hl hi
+      refine ⟨?_, fun p hp => by rw [hi p hp, hs.frame p hp], by rw [hl.1, hs.ch], by rw [hl.2, hs.wk]⟩
+      exact mem_children_exec _ s _ _ (fun st hst => (createSteps_tgt _ s files st hst).1) hs.dir
+    · exact ⟨hB, hs⟩
+  | reopen =>
+    simp only [bstep]
+    split
+    · rename_i l hl
+      obtain ⟨ks, hks⟩ := scanList_names _ _ _ _ hl B hs.dir
+      exact ⟨List.mem_map.mpr ⟨(B, ks), hks, rfl⟩, hs⟩
+    · exact ⟨hB, hs⟩
+  | restore n tasks =>
+    simp only [bstep]
+    split
+    · rename_i ks hks
+      split
+      · rename_i s' hr
+        refine ⟨hB, ?_⟩
+        simp only [restore] at hr
+        split at hr
+        · cases hr
+        · refine copyMap_preserves _ id _ _ (SInv c B s0) ?_ s s' hr hs
+          intro t f b hf ht
+          obtain ⟨k, hk, rfl⟩ := List.mem_map.mp hf
+          exact sinv_set c B s0 t _ _ ht (hok ks hks k hk)
+      · exact ⟨hB, hs⟩
+    · exact ⟨hB, hs⟩
+  | modify p b => exact ⟨hB, sinv_set c B s0 s p _ hs hok⟩
+
+/-- ... and keeps `B`'s RECORD in the dictionary, when dictionary and disk agreed on it at the start -/
+theorem bstep_rec (c : Cfg) (B : Name) (ks : List Key) (s0 : St) (ms : Listing × St) (o : BOp)
+    (hdisk : scanOne s0 c.backups B = .ok ks)
+    (hB : lookup ms.1 B = some ks) (hs : SInv c B s0 ms.2) : lookup (bstep c ms o).1 B = some ks := by
+  obtain ⟨m, s⟩ := ms
+  cases o with
+  | create n files => simp only [bstep]; split; · exact lookup_append _ _ _ _ hB
+                      · exact hB
+  | reopen =>
+    simp only [bstep]
+    split
+    · rename_i l hl
+      obtain ⟨x, hx⟩ := scanList_names _ _ _ _ hl B hs.dir
+      obtain ⟨y, hy⟩ := lookup_of_name l B (List.mem_map.mpr ⟨(B, x), hx, rfl⟩)
+      have := scanList_ok_mem _ _ _ _ hl _ _ (lookup_mem l B y hy)
+      rw [sinv_scanOne c B s0 s hs, hdisk] at this
+      cases this; exact hy
+    · exact hB
+  | restore n tasks => simp only [bstep]; split; · split <;> exact hB
+                       · exact hB
+  | modify p b => exact hB
+
+/-- **No session overwrites or alters an existing backup.**  `A` is a name in the manager's dictionary (its
+record may be EMPTY) whose directory exists.  After any session of `create_backup` calls (any names incl.
+`A`, any selections incl. `[]`), re-opened managers, restores of ANY backup with any task list, and data
+file modifications, `A` is still in the dictionary, no path below `A`'s directory has changed (so a
+restore of `B` leaves `A` - and `B` - byte-identical), and the scan's verdict on `A` is the same. -/
 theorem create_never_overwrites (c : Cfg) (A : Name) (h : List BOp) (m : Listing) (s : St)
-    (hA : A ∈ m.map (·.1)) (hdir : A ∈ children s c.backups) :
+    (hA : A ∈ m.map (·.1)) (hdir : A ∈ children s c.backups) (hok : BOk c h (m, s)) :
     A ∈ (brun c h (m, s)).1.map (·.1) ∧ A ∈ children (brun c h (m, s)).2 c.backups ∧
-      ∀ p, (c.backups ++ [A]) <+: p → get (brun c h (m, s)).2 p = get s p := by
-  induction h generalizing m s with
-  | nil => exact ⟨hA, hdir, fun _ _ => rfl⟩
+      (∀ p, (c.backups ++ [A]) <+: p → get (brun c h (m, s)).2 p = get s p) ∧
+      scanOne (brun c h (m, s)).2 c.backups A = scanOne s c.backups A := by
+  suffices H : ∀ (ms : Listing × St), A ∈ ms.1.map (·.1) → SInv c A s ms.2 → BOk c h ms →
+      A ∈ (brun c h ms).1.map (·.1) ∧ SInv c A s (brun c h ms).2 by
+    obtain ⟨h1, h2⟩ := H (m, s) hA ⟨hdir, fun _ _ => rfl, rfl, rfl⟩ hok
+    exact ⟨h1, h2.dir, h2.frame, sinv_scanOne c A s _ h2⟩
+  clear hok
+  induction h with
+  | nil => intro ms h1 h2 _; exact ⟨h1, h2⟩
   | cons o r ih =>
-    simp only [brun, List.foldl_cons]
-    change _ ∈ (brun c r (bstep c (m, s) o)).1.map _ ∧ _ ∈ children (brun c r (bstep c (m, s) o)).2 _ ∧
-      ∀ p, _ → get (brun c r (bstep c (m, s) o)).2 p = _
-    -- one step keeps the invariant
-    have step : A ∈ (bstep c (m, s) o).1.map (·.1) ∧ A ∈ children (bstep c (m, s) o).2 c.backups ∧
-        ∀ p, (c.backups ++ [A]) <+: p → get (bstep c (m, s) o).2 p = get s p := by
-      cases o with
-      | create n files =>
-        simp only [bstep]
-        split
-        · rename_i hret
-          -- the call went ahead, so `n` was not in the dictionary: `n ≠ A`
-          have hn : A ≠ n := by
-            intro e; subst e
-            have := (no_overwrite { c with name := A } m s files hA).1
-            simp [this] at hret
-          refine ⟨by simp [hA], ?_, ?_⟩
-          · exact mem_children_exec _ s _ _ (fun st hst => by
-              have : st ∈ createSteps { c with name := n } s files := by
-                simp only [create] at hst hret
-                split at hst
-                · cases hst
-                · exact hst
-              exact (createSteps_tgt _ s files st this).1) hdir
-          · intro p hp
-            have hc : (create { c with name := n } m s files).2 = createSteps { c with name := n } s files := by
-              simp only [create] at hret ⊢
-              split
-              · rename_i hx; simp [hx] at hret
-              · rfl
-            rw [hc]
-            have := (backups_independent { c with name := n } A hn s files
-              (createSteps { c with name := n } s files).length).1 p hp
-            simpa [crashAfter, List.take_length] using this
-        · exact ⟨hA, hdir, fun _ _ => rfl⟩
-      | reopen =>
-        simp only [bstep]
-        split
-        · rename_i l hl
-          obtain ⟨ks, hks⟩ := scanList_names _ _ _ _ hl A hdir
-          exact ⟨List.mem_map.mpr ⟨(A, ks), hks, rfl⟩, hdir, fun _ _ => rfl⟩
-        · exact ⟨hA, hdir, fun _ _ => rfl⟩
-    obtain ⟨i1, i2, i3⟩ := ih (bstep c (m, s) o).1 (bstep c (m, s) o).2 step.1 step.2.1
-    exact ⟨i1, i2, fun p hp => by rw [i3 p hp, step.2.2 p hp]⟩
+    intro ms h1 h2 h3
+    obtain ⟨i1, i2⟩ := bstep_sinv c A s ms o h1 h2 h3.1
+    exact ih (bstep c ms o) i1 i2 h3.2
 
-/-- ... hence, after any such history, `create_backup(files, A)` returns `False` and does nothing. -/
+/-- ... hence, after any such session, `create_backup(files, A)` returns `False` and does nothing. -/
 theorem create_existing_returns_false (c : Cfg) (A : Name) (h : List BOp) (m : Listing) (s : St) (files : List Path)
-    (hA : A ∈ m.map (·.1)) (hdir : A ∈ children s c.backups) :
+    (hA : A ∈ m.map (·.1)) (hdir : A ∈ children s c.backups) (hok : BOk c h (m, s)) :
     bstep c (brun c h (m, s)) (.create A files) = brun c h (m, s) := by
   have := (no_overwrite { c with name := A } (brun c h (m, s)).1 (brun c h (m, s)).2 files
-    (create_never_overwrites c A h m s hA hdir).1).1
+    (create_never_overwrites c A h m s hA hdir hok).1).1
   simp [bstep, this]
 
+/-- **Round trip at full strength over sessions.**  Backup `B` is in the dictionary with record `ks`, the disk
+agrees (`scanOne`), and its copies hold `orig f` (e.g. right after `create_backup`).  After ANY session
+(creations of any names, re-opened managers, restores of any backups with any task lists, data file
+modifications), the dictionary still holds `ks` for `B`, and `restore_backup(B)` succeeds, makes every
+file recorded in `B` byte-identical to `orig f`, and changes nothing else. -/
+theorem session_restore_identity (c : Cfg) (B : Name) (ks : List Key) (orig : Path → List Sym) (h : List BOp)
+    (m : Listing) (s : St)
+    (hB : lookup m B = some ks) (hdisk : scanOne s c.backups B = .ok ks) (hdir : B ∈ children s c.backups)
+    (hne : ks ≠ [])
+    (hout : ∀ k ∈ ks, ¬ c.backups <+: c.dataRoot ++ splitKey k)
+    (hcomplete : ∀ f ∈ ks.map splitKey, get s ({ c with name := B }.bpath f) = some (.reg (orig f)))
+    (hok : BOk c h (m, s)) :
+    lookup (brun c h (m, s)).1 B = some ks ∧
+    ∃ s'', restore { c with name := B } (ks.map splitKey) [] (brun c h (m, s)).2 = .ok s'' ∧
+      (∀ f ∈ ks.map splitKey, get s'' (c.dataRoot ++ f) = some (.reg (orig f))) ∧
+      (∀ p, (∀ f ∈ ks.map splitKey, p ≠ c.dataRoot ++ f) → get s'' p = get (brun c h (m, s)).2 p) := by
+  have H : ∀ (r : List BOp) (ms : Listing × St), lookup ms.1 B = some ks → SInv c B s ms.2 → BOk c r ms →
+      lookup (brun c r ms).1 B = some ks ∧ SInv c B s (brun c r ms).2 := by
+    intro r
+    induction r with
+    | nil => intro ms h1 h2 _; exact ⟨h1, h2⟩
+    | cons o r ih =>
+      intro ms h1 h2 h3
+      exact ih (bstep c ms o) (bstep_rec c B ks s ms o hdisk h1 h2)
+        (bstep_sinv c B s ms o (name_of_lookup _ _ _ h1) h2 h3.1).2 h3.2
+  obtain ⟨r1, r2⟩ := H h (m, s) hB ⟨hdir, fun _ _ => rfl, rfl, rfl⟩ hok
+  refine ⟨r1, ?_⟩
+  have hfs : ks.map splitKey ≠ [] := by cases ks <;> simp_all
+  have hout' : ∀ f ∈ ks.map splitKey, ¬ ({ c with name := B } : Cfg).bdir <+: ({ c with name := B } : Cfg).dpath f := by
+    intro f hf hp
+    obtain ⟨k, hk, rfl⟩ := List.mem_map.mp hf
+    exact hout k hk ((List.prefix_append _ _).trans hp)
+  have hc' : ∀ f ∈ ks.map splitKey,
+      get (brun c h (m, s)).2 (({ c with name := B } : Cfg).bpath f) = some (.reg (orig f)) := by
+    intro f hf
+    rw [r2.frame _ (bdir_prefix_bpath { c with name := B } f)]
+    exact hcomplete f hf
+  exact restore_identity { c with name := B } id (ks.map splitKey) orig [] _ _ hfs hout' hc'
+    (fun _ ho => by cases ho) rfl
+
+
+/-! ## 10c. "Never half-valid", stated per crash point -/
+
+/-- **Crash atomicity of `create_backup`.**  Stop after any `k` primitive steps and open a manager:
+* `k = 0`: the backup is absent from every listing;
+* from the first step until the record is complete: NO manager can be opened (the scan raises) - in this
+  code a directory without a valid record is not "ignored", it is reported and blocks the data root;
+* at every `k`: if a manager can be opened and lists the backup, every recorded file is present in the
+  backup and byte-equal to its source. -/
+theorem crash_atomicity (c : Cfg) (s0 : St) (files : List Path) (k : Nat)
+    (hfresh : ∀ p, c.bdir <+: p → get s0 p = none)
+    (hsrc : ∀ f ∈ files, ∃ b, get s0 (c.dpath f) = some (.reg b)) :
+    (k = 0 → ∀ L, scan (crashAfter k (createSteps c s0 files) s0) c.backups = .ok L → c.name ∉ L.map (·.1)) ∧
+    (1 ≤ k → k < (copyPhase c s0 files).length + 3 →
+      ∀ L, scan (crashAfter k (createSteps c s0 files) s0) c.backups ≠ .ok L) ∧
+    (∀ L, scan (crashAfter k (createSteps c s0 files) s0) c.backups = .ok L → ∀ ks, (c.name, ks) ∈ L →
+      ∀ key ∈ ks, ∃ b, get (crashAfter k (createSteps c s0 files) s0) (c.bpath (splitKey key)) = some (.reg b) ∧
+        get s0 (c.dpath (splitKey key)) = some (.reg b)) := by
+  refine ⟨?_, fun h1 h2 => incomplete_backup_blocks_manager c s0 files k hfresh h1 h2,
+    fun L hL ks hks => crash_consistent c s0 files k hfresh hsrc L hL ks hks⟩
+  intro hk L hL hin
+  subst hk
+  obtain ⟨e, he, hn⟩ := List.mem_map.mp hin
+  obtain ⟨n, ks⟩ := e
+  simp only at hn; subst hn
+  have hc : c.name ∈ children s0 c.backups := scanList_mem_names _ _ _ _ hL _ _ he
+  exact get_ne_none_of_mem_children s0 c.backups c.name hc (hfresh _ (List.prefix_refl _))
+
+theorem copySteps_simple (c : Cfg) (g : List Sym → List Sym) (mk : Bool) (pick : Path → Bool) (fs : List Path) (s : St) :
+    ∀ st ∈ copySteps c g mk pick fs s, st.simple = true := by
+  induction fs with
+  | nil => intro st hst; simp [copySteps] at hst
+  | cons f r ih =>
+    intro st hst
+    simp only [copySteps] at hst
+    split at hst
+    · split at hst
+      · simp only [List.mem_append] at hst
+        rcases hst with (h | h) | h
+        · split at h
+          · simp only [mkdirsSteps, List.mem_map] at h
+            obtain ⟨_, _, rfl⟩ := h; rfl
+          · cases h
+        · simp only [writeSteps, List.mem_cons, List.not_mem_nil, or_false] at h
+          rcases h with rfl | rfl | rfl | rfl <;> rfl
+        · exact ih st h
+      · cases hst
+    · exact ih st hst
+
+/-- **A crashed restore is recoverable.**  Stop `restore_backup(tasks)` after any `k` primitive steps: every
+path below the backup directory is unchanged, the scan's verdict on the backup is unchanged (it is still
+listed if it was), and a second, complete restore returns every recorded file to its backup bytes. -/
+theorem restore_recoverable (c : Cfg) (fs : List Path) (orig : Path → List Sym) (tasks : List Name) (s : St) (k : Nat)
+    (hne : fs ≠ [])
+    (hout : ∀ f ∈ fs, ¬ c.bdir <+: c.dpath f)
+    (hcomplete : ∀ f ∈ fs, get s (c.bpath f) = some (.reg (orig f))) :
+    (∀ p, c.bdir <+: p → get (crashAfter k (restoreSteps c fs tasks s) s) p = get s p) ∧
+    scanOne (crashAfter k (restoreSteps c fs tasks s) s) c.backups c.name = scanOne s c.backups c.name ∧
+    ∃ s'', restore c fs [] (crashAfter k (restoreSteps c fs tasks s) s) = .ok s'' ∧
+      ∀ f ∈ fs, get s'' (c.dpath f) = some (.reg (orig f)) := by
+  have hfr := restore_never_touches_backup c fs tasks s hout k
+  refine ⟨hfr, ?_, (restore_after_crashed_restore c id fs orig tasks [] s k hne hout (by simp) hcomplete).1⟩
+  have hst : ∀ (D : Path), c.bdir <+: D → ∀ st ∈ (restoreSteps c fs tasks s).take k,
+      st.simple = true ∧ ∀ q ∈ st.tgt, ¬ D <+: q := by
+    intro D hD st hst
+    have hm := List.mem_of_mem_take hst
+    refine ⟨copySteps_simple c id true _ fs s st hm, fun q hq hp => ?_⟩
+    obtain ⟨f, hf, hpf⟩ := copySteps_tgt c id true _ fs s st hm q hq
+    exact hout f hf ((hD.trans hp).trans hpf)
+  apply scanOne_congr
+  · exact hfr
+  · exact (children_walk_exec _ s _ (hst _ (List.prefix_refl _))).1
+  · exact (children_walk_exec _ s _ (hst (c.backups ++ [c.name, rootName]) (bdir_prefix_broot c))).2
 
 /-! ## 11. Non-vacuity: the hypotheses are satisfiable and the accepting branch is reachable -/
 
@@ -1072,6 +1311,24 @@ example : ((scan (exec (createSteps { cEx with name := ['e'] } sEx []) sEx) cEx.
 example : brun cEx [.create ['e'] fEx, .reopen, .create ['e'] fEx]
       ([(['e'], [])], exec (createSteps { cEx with name := ['e'] } sEx []) sEx)
     = ([(['e'], [])], exec (createSteps { cEx with name := ['e'] } sEx []) sEx) := by decide
+/-- OUTSIDE the property's quantifier (two manager objects, the first one stale): a manager whose dictionary
+was read before another manager created backup `n` does not know the name; its `create_backup(.., n)`
+goes ahead and OVERWRITES the existing copy (here `d/x`: backed up as byte 7, data changed to 9). The
+guard is the in-memory dictionary, not the disk. Observation, machine-checked on the model. -/
+theorem stale_manager_overwrites_example :
+    get (set (exec (createSteps cEx sEx fEx) sEx) [['d'], ['x']] (.reg [.byte 9])) (cEx.bpath [['x']])
+      = some (.reg [.byte 7]) ∧
+    (bstep cEx ([], set (exec (createSteps cEx sEx fEx) sEx) [['d'], ['x']] (.reg [.byte 9])) (.create ['n'] fEx)).1
+      = [(['n'], [['s', '/', 'a'], ['x']])] ∧
+    get (bstep cEx ([], set (exec (createSteps cEx sEx fEx) sEx) [['d'], ['x']] (.reg [.byte 9]))
+        (.create ['n'] fEx)).2 (cEx.bpath [['x']]) = some (.reg [.byte 9]) := by decide
+/-- ... whereas a manager that was re-opened first refuses -/
+example : (bstep cEx (bstep cEx ([], set (exec (createSteps cEx sEx fEx) sEx) [['d'], ['x']] (.reg [.byte 9])) .reopen)
+    (.create ['n'] fEx)).2 = set (exec (createSteps cEx sEx fEx) sEx) [['d'], ['x']] (.reg [.byte 9]) := by decide
+/-- a session with restores and modifications satisfying `BOk`, ending in the round trip -/
+example : (get (brun cEx [.modify [['d'], ['x']] [.byte 9], .create ['m'] [[['x']]], .reopen, .restore ['n'] []]
+    ([(['n'], [['s', '/', 'a'], ['x']])], exec (createSteps cEx sEx fEx) sEx)).2 [['d'], ['x']]) = some (.reg [.byte 7]) := by
+  decide
 end Examples
 
 end HedVerif.C18
